@@ -142,6 +142,7 @@ def run_property(pid, tier, seed, jobs=None):
     results = []
     known = load_known()
     confirmed, known_hits, nonrepro = [], [], []
+    out_of_time = 0
     replays_done = 0
     seen_keys = set()
     stopped_early = False
@@ -158,6 +159,8 @@ def run_property(pid, tier, seed, jobs=None):
             if key in seen_keys and len(confirmed) + len(known_hits) > 0:
                 continue  # same finding already confirmed once: do not replay hundreds of siblings
             try:
+                from symx.hygiene import GUARD
+                GUARD()     # a replay starts from the module / class level state of a fresh process, like every explored path
                 rep = mod.replay(cex)
             except Exception:  # noqa: BLE001
                 rep = {"reproduced": False, "detail": "replay crashed:\n" + traceback.format_exc()}
@@ -182,7 +185,14 @@ def run_property(pid, tier, seed, jobs=None):
             t_first = None
             it = pool.imap_unordered(_work, [(modname, s) for s in shapes], chunksize=1)
             pending = len(shapes)
+            # a check must end in bounded time also on a tree where the cheap proofs stop working (e.g. a refactoring that is an identity
+            # over the reals but not for the solver): when the wall-clock budget of the tier is used up the remaining shapes are not
+            # explored and are reported as such -- never as held
+            budget = float(os.environ.get("VERIF_BUDGET_S") or getattr(mod, "BUDGET_S", {}).get(tier, 1500 if tier == "quick" else 6 * 3600))
             while pending:
+                if time.time() - t0 > budget:
+                    out_of_time = pending
+                    break
                 try:
                     r = it.next(timeout=2.0)
                 except mp.TimeoutError:
@@ -225,6 +235,9 @@ def run_property(pid, tier, seed, jobs=None):
     # A solver model that does not reproduce on the real code (an interpretation of an uninterpreted function no real function has,
     # a float effect outside the real-number model, a path the engine only assumed feasible) is NOT a violation and not a harness
     # failure either: the obligation is inconclusive.  The replay on the real code is the arbiter of what is reported as VIOLATION.
+    if out_of_time:
+        inconcl.append(({"not_explored": out_of_time}, {"obligation": f"{out_of_time} of {len(shapes)} shapes not explored: wall-clock budget of the tier used up",
+                                                       "solver": "none", "note": "time budget"}))
     for cex in nonrepro:
         inconcl.append((cex["shape"], {"obligation": cex["obligation"], "solver": cex.get("solver", "?"),
                                        "note": "solver model did not reproduce on the real code: " + str(cex["replay"].get("detail"))[:160]}))
@@ -263,7 +276,7 @@ def run_property(pid, tier, seed, jobs=None):
                            "transitions = solver queries discharged, traces_validated = model self-tests + replays",
             "obligations": obligations, "discharged": proved, "inconclusive": len(inconcl),
             "violations_confirmed": len(by_key), "known_findings_hit": [h[0]["key"] for h in known_hits],
-            "shapes": len(shapes), "shapes_completed": len(ok), "stopped_early_on_violation": stopped_early,
+            "shapes": len(shapes), "shapes_completed": len(ok), "shapes_not_explored_time_budget": out_of_time, "stopped_early_on_violation": stopped_early,
             "non_reproducing_models": len(nonrepro),
             "functions_encoded": getattr(mod, "FUNCTIONS", []),
             "bounds": mod.bounds(tier) if hasattr(mod, "bounds") else {},
